@@ -5,15 +5,15 @@ harness("h_c06", ["harness/h_c06.cc"], libs=("tools",))
 
 PROPS["C06"] = dict(
     parts=[rc("h_c06", quick=dict(cases=20000, procs=4, budget_s=600),
-              thorough=dict(cases=800000, procs=16, budget_s=1200)),
-           py("vv.exe_c06", quick=dict(cases=160, procs=16, budget_s=900),
-              thorough=dict(cases=4800, procs=16, budget_s=3000))],
+              thorough=dict(cases=400000, procs=16, budget_s=1200)),
+           py("vv.exe_c06", quick=dict(cases=960, procs=16, budget_s=900),
+              thorough=dict(cases=16000, procs=16, budget_s=3000))],
     rule=("qrsolve-kkt (lib): A = U diag(s) V^T (m x n, n<=14, m>=n mostly, s in 0.1..1000, rational Givens products), B (k x n, 0<=k<n) dense "
           "full row rank or banded; checks |Bx|~0, N^T A^T (Ax-b)~0 and x = long-double minimiser in the null-space basis; cond > 1e6 discarded; "
           "non-trivial = k >= 1. "
           "imc_solve (exe): csg_imc_solve -r -i -g -n on generated dyadic non-symmetric n x n A (n 2..30), b, r = rho*|A^T A|_2 with rho in "
           "1e-6..1e3, index files with 1-4 named ranges (contiguous, strided, scrambled order); residual of (A^T A + rI)x = -A^T b computed in numpy "
-          "from the files, per-interaction *.dpot.imc hold exactly the named index ranges; non-trivial = |A-A^T| > 0.1|A| and >= 2 interactions. "
+          "from the files, per-interaction *.dpot.imc hold exactly the named index ranges; non-trivial = >= 2 interactions and |A-A^T| > 0.1|A| (while the finding imcio_read_matrix/transposed is excluded the non-symmetric matrices are replaced by their symmetric part and counted as excluded-known). "
           "fmatch (exe): csg_fmatch on synthetic force fields inside the natural-cubic-spline space (5-25 knots): non-bonded pairs, bonds, angles, "
           "dihedrals of small molecules in an orthorhombic box, reference forces analytic in numpy written as DL_POLY HISTORY (.dlph), 1-4 frames, "
           "frames_per_block in {1,2,all}, constrainedLS true/false; written *.force tables vs generating function on the output grid; "
